@@ -308,13 +308,14 @@ func (pr *ProtoArray) ApplyScoreChanges(deltas []SignedGwei, justifiedEpoch Epoc
 		delta := deltas[i]
 		node := &pr.nodes[i]
 		node.Weight += delta
-		if node.ForkchoiceParent != NONE {
+		// a parent below the offset was pruned away
+		if node.ForkchoiceParent != NONE && node.ForkchoiceParent >= pr.indexOffset {
 			deltas[node.ForkchoiceParent-pr.indexOffset] += delta
 		}
 	}
 	for i := len(pr.nodes) - 1; i >= 0; i-- {
 		node := &pr.nodes[i]
-		if node.ForkchoiceParent != NONE {
+		if node.ForkchoiceParent != NONE && node.ForkchoiceParent >= pr.indexOffset {
 			if err := pr.maybeUpdateBestChildAndDescendant(node.ForkchoiceParent, pr.indexOffset+NodeIndex(i)); err != nil {
 				return err
 			}
@@ -327,7 +328,7 @@ func (pr *ProtoArray) ApplyScoreChanges(deltas []SignedGwei, justifiedEpoch Epoc
 func (pr *ProtoArray) updateConnections() error {
 	for i := len(pr.nodes) - 1; i >= 0; i-- {
 		node := &pr.nodes[i]
-		if node.ForkchoiceParent != NONE {
+		if node.ForkchoiceParent != NONE && node.ForkchoiceParent >= pr.indexOffset {
 			if err := pr.maybeUpdateBestChildAndDescendant(node.ForkchoiceParent, pr.indexOffset+NodeIndex(i)); err != nil {
 				return err
 			}
